@@ -356,7 +356,8 @@ func (r *c02run) limits() {
 	vfAssert(dt.size <= dt.maxSize, "table size within the current maximum")
 	vfAssert(vfOr(dt.maxSize == r.m0, dt.maxSize <= r.a), "maximum never raised above the allowed maximum")
 	if r.maxStr != 0 {
-		vfAssert(int64(r.d.saveBuf.Len()) <= 2*(int64(r.maxStr)+8), "buffered bytes within the paranoia bound")
+		// the bound of Decoder.Write (varIntOverhead = 11 since /repo 23a9071, 8 before)
+		vfAssert(int64(r.d.saveBuf.Len()) <= 2*(int64(r.maxStr)+11), "buffered bytes within the paranoia bound")
 	}
 }
 
